@@ -479,6 +479,15 @@ func runWorkerFull(bin, scratch, prop, tier string, seed0 uint64, n int, deadlin
 				fh.Close()
 				return next, fmt.Errorf("bad worker output line: %v", e)
 			}
+			if !r.OK && r.Class == "budget" && extraEnv == nil {
+				// The step budget guards against runs that never end; it is not
+				// part of any property. Repeat the evaluation alone under a
+				// budget 10 times larger: a long evaluation completes (its
+				// result replaces this one), a livelock runs out again.
+				if r2 := confirmBudget(bin, scratch, prop, tier, r.Seed); r2 != nil {
+					r = *r2
+				}
+			}
 			f(&r)
 			next = r.Seed + 1
 		}
@@ -530,6 +539,33 @@ func runWorkerFull(bin, scratch, prop, tier string, seed0 uint64, n int, deadlin
 	}
 }
 
+// confirmBudget re-runs one seed in its own process with a 10 times larger step
+// budget and returns its result (nil if that could not be obtained).
+func confirmBudget(bin, scratch, prop, tier string, seed uint64) *Result {
+	out := filepath.Join(scratch, fmt.Sprintf("budget-confirm-%d.jsonl", seed))
+	defer os.Remove(out)
+	cmd := exec.Command(bin, "-test.run", "^TestWorker$", "-test.timeout", "0")
+	cmd.Dir = scratch
+	cmd.Env = append(os.Environ(), "VERIF_PROP="+prop, "VERIF_TIER="+tier, "VERIF_BUDGET_SCALE=10", "VERIF_WATCHDOG_S=600",
+		"VERIF_SEED0="+strconv.FormatUint(seed, 10), "VERIF_NSEEDS=1", "VERIF_OUT="+out,
+		"GOMAXPROCS=2", "TMPDIR="+filepath.Join(scratch, "tmp"), "VERIF_KNOWN_FILE="+filepath.Join(verifDir, "known-findings.json"))
+	cmd.Run()
+	b, err := os.ReadFile(out)
+	if err != nil {
+		return nil
+	}
+	lines := strings.Split(strings.TrimSpace(string(b)), "\n")
+	var r Result
+	if json.Unmarshal([]byte(lines[len(lines)-1]), &r) != nil || r.Seed != seed {
+		return nil
+	}
+	if r.Probes == nil {
+		r.Probes = map[string]int{}
+	}
+	r.Probes["engine:step-budget-ran-out-repeated-with-10x"]++
+	return &r
+}
+
 // confirmFatal re-runs one seed in its own process and reports whether it
 // dies with a runtime fatal error again.
 func confirmFatal(bin, scratch, prop, tier string, seed uint64) bool {
@@ -561,6 +597,10 @@ func runReplay(bin, scratch string, rf *ReplayFile, trace bool) (*Result, error)
 	cmd.Env = append(os.Environ(), "VERIF_PROP="+rf.Prop, "VERIF_REPLAY="+p, "VERIF_OUT="+out, "GOMAXPROCS=2", "VERIF_WATCHDOG_S=30", "TMPDIR="+filepath.Join(scratch, "tmp"), "VERIF_KNOWN_FILE="+filepath.Join(verifDir, "known-findings.json"))
 	if trace {
 		cmd.Env = append(cmd.Env, "VERIF_TRACE=1")
+	}
+	if rf.Class == "budget" {
+		// budget verdicts are only ever reported under the 10x budget (see confirmBudget)
+		cmd.Env = append(cmd.Env, "VERIF_BUDGET_SCALE=10", "VERIF_WATCHDOG_S=600")
 	}
 	var stderr strings.Builder
 	cmd.Stderr = &stderr
